@@ -108,9 +108,10 @@ class BaseColumnEnsembleClassifier(BaseClassifier, _HeterogenousMetaEstimator):
                 for (name, estimator, _), column in zip(self.estimators, self._columns)
             ]
 
-        # add transformer tuple for remainder
-        if self._remainder[2] is not None:
-            estimators = chain(estimators, [self._remainder])
+            # add transformer tuple for remainder (once fitted, the fitted
+            # remainder estimator is part of `estimators_`)
+            if self._remainder[2] is not None:
+                estimators = chain(estimators, [self._remainder])
 
         for name, estimator, column in estimators:
             if replace_strings:
@@ -228,8 +229,8 @@ class ColumnEnsembleClassifier(BaseColumnEnsembleClassifier):
     _required_parameters = ["estimators"]
 
     def __init__(self, estimators, remainder="drop", verbose=False):
-        self.remainder = remainder
         super(ColumnEnsembleClassifier, self).__init__(estimators, verbose=verbose)
+        self.remainder = remainder
 
     def get_params(self, deep=True):
         """Get parameters for this estimator.
